@@ -265,6 +265,15 @@ def oracle(c, obs, present=frozenset()):
     scale = max(np.abs(S).max(), 1e-300)
     V = dec(c["v"])
     garbage_ok = "arnoldi_clip_garbage" in present
+    # a live remainder below tol/2 anywhere in the batch (second manifestation of arnoldi_clip_garbage) derails that element and,
+    # through the shared stopping test, the step count of the others
+    batch_clipped = False
+    if garbage_ok and c["batch"] and m > 0:
+        for b in range(len(obs["Q"])):
+            Hb = dec(obs["H"][b]).T
+            if Hb.shape == (m + 1, m):
+                sdb = np.diag(Hb, -1).real
+                batch_clipped = batch_clipped or any(1e-6 * scale < x < c["tol"] / 2.0 for x in sdb)
     for b in range(len(obs["Q"])):
         tag = f"[b{b}] " if c["batch"] else ""
         Q = dec(obs["Q"][b]).T
@@ -300,13 +309,14 @@ def oracle(c, obs, present=frozenset()):
         loss = np.abs(Qa.conj().T @ Qa - np.eye(a + 1)).max()
         if loss > 1e-8 and loss > 100 * mgs_loss_ref(S, v.astype(complex), a):
             bad.append(tag + f"columns 0..{a} not orthonormal (loss {loss:.3g}, beyond what single-pass modified Gram-Schmidt loses on this input)")
-        alive_steps = a if b == 0 else min(alive_steps, a)
+        executed = int(np.sum(np.abs(H).max(axis=0) > 0))
+        alive_steps = min(a, executed - 1) if b == 0 else min(alive_steps, a, executed - 1)
         worst_loss = loss if b == 0 else max(worst_loss, loss)
         was_clipped = bool(clipped) if b == 0 else (was_clipped or bool(clipped))
         # Arnoldi relation on the active columns
         if a > 0 and np.abs(S @ Q[:, :a] - Q @ H[:, :a]).max() > 1e-8 * scale:
             bad.append(tag + "A Q[:, :a] != Q H[:, :a] on the active columns")
-        if not ambiguous:
+        if not ambiguous and not batch_clipped:
             if a < m:
                 # column a of H closed the factorisation (breakdown, or the cap min(max_iters, n) was reached)
                 if np.abs(S @ Q[:, a:a + 1] - Q[:, :a + 1] @ H[:a + 1, a:a + 1]).max() > 1e-8 * scale and np.abs(H[:, a]).max() > 0:
